@@ -67,6 +67,22 @@ def genuine():
         return q, r.to_wire()
 
 
+class Addr(tuple):
+    """E2b: a socket address whose rendering inside the UnexpectedSource message is a constant (the message text is
+    not the subject; rendering a symbolic port would enumerate ports one path at a time).  Comparison, indexing and
+    slicing are the real tuple's."""
+
+    _vf_format_const = "<address>"
+
+    def __format__(self, spec):
+        return "<address>"
+
+    def __repr__(self):
+        return "<address>"
+
+    __str__ = __repr__
+
+
 # datagram classes
 GENUINE, BAD_ID, BAD_FLAGS, BAD_QUESTION, GARBAGE, TRAILING, FORGED_ADDR, FORGED_PORT, TRUNCATED, NOTHING = range(10)
 
@@ -108,7 +124,7 @@ def make_datagram(kind, reply, v16, garbage, port):
     elif kind == FORGED_ADDR:
         d, src = reply, ("10.0.0.54", PORT)
     elif kind == FORGED_PORT:
-        d, src = reply, (WHERE, port)
+        d, src = reply, Addr((WHERE, port))
     else:  # TRUNCATED: genuine header with TC, answer cut off
         d = reply[:2] + bytes([reply[2] | 0x02]) + reply[3:6] + b"\x00\x00" + reply[8:29]
     return d, src
@@ -144,6 +160,7 @@ def h18a(k1: int, k2: int, v1: int, v2: int, g1: bytes, g2: bytes, port: int, ig
     # ---- reference behaviour table
     qwire = q.to_wire()
     want = ("Timeout",)
+    alt = None
     for d, src in script:
         if src != (WHERE, PORT):
             if ign_unexpected:
@@ -189,6 +206,10 @@ def h18a(k1: int, k2: int, v1: int, v2: int, g1: bytes, g2: bytes, port: int, ig
             continue
         if not isresp:
             want = ("BadResponse",)
+            # an UPDATE-opcode datagram is parsed with the update section rules, which reject the
+            # (IN-class, TTL 300) record in the prerequisite section: either rejection is "not returned"
+            if (d[2] // 8) % 16 == 5:
+                alt = ("FormError",)
             break
         want = ("ok", d)
         break
@@ -196,7 +217,7 @@ def h18a(k1: int, k2: int, v1: int, v2: int, g1: bytes, g2: bytes, port: int, ig
         # the property itself: only a genuine response from the queried address and port is ever returned
         if not ref_is_response(qwire, want[1][:len(reply)] if want[1][:len(reply)] == reply else want[1]):
             return False
-    return got == want
+    return got == want or (alt is not None and got == alt)
 
 
 def header_is_response(qwire, d):
@@ -362,8 +383,8 @@ def h18c(di: int, fi: int, dport: int, fport: int, flow: int, scope: int, ignore
     v6 = S("v6")
     pool = V6 if v6 else V4
     af = socket.AF_INET6 if v6 else socket.AF_INET
-    dest = (pool[di], dport, 0, 0) if v6 else (pool[di], dport)
-    frm = (pool[fi], fport, flow, scope) if v6 else (pool[fi], fport)
+    dest = Addr((pool[di], dport, 0, 0) if v6 else (pool[di], dport))
+    frm = Addr((pool[fi], fport, flow, scope) if v6 else (pool[fi], fport))
     try:
         got = dns.query._matches_destination(af, frm, dest, ignore)
     except dns.query.UnexpectedSource:
@@ -386,7 +407,7 @@ def h18c(di: int, fi: int, dport: int, fport: int, flow: int, scope: int, ignore
 def h18c_pre(di, fi, dport, fport, flow, scope, ignore):
     if not S("v6") and di == 3:
         return False  # (the destination is validated by the caller before any datagram is read)
-    return 0 <= di <= 3 and 0 <= fi <= 3 and 0 <= dport <= 65535 and 0 <= fport <= 65535 and 0 <= flow <= 1 and 0 <= scope <= 1 and (S("v6") or (flow == 0 and scope == 0))
+    return di == S("di") and 0 <= fi <= 3 and 0 <= dport <= 65535 and 0 <= fport <= 65535 and 0 <= flow <= 1 and 0 <= scope <= 1 and (S("v6") or (flow == 0 and scope == 0))
 
 
 HARNESSES = [
@@ -394,15 +415,15 @@ HARNESSES = [
             encodes=["dns.query.udp", "dns.query.receive_udp", "dns.query._udp_recv", "dns.query._matches_destination", "dns.query._addresses_equal",
                      "dns.message.Message.is_response", "dns.message.from_wire"],
             bound="<= 2 datagrams before the genuine reply (or before nothing): genuine, id replaced by symbolic 16 bits, flags replaced by symbolic 16 bits, changed question, garbage of <= 3 symbolic octets, trailing octet, forged source address, forged source port (symbolic), genuine truncated reply; ignore_unexpected / ignore_errors / raise_on_truncation / ignore_trailing symbolic; quick: first datagram class per shard, second symbolic",
-            stubs=["E11", "E5", "E12", "E6"], outside="> 3 datagrams; real sockets; the async twins"),
+            stubs=["E11", "E5", "E12", "E6", "E2b"], outside="> 3 datagrams; real sockets; the async twins"),
     Harness("H18b", h18b, h18b_pre, h18b_shards, kind="finite selection of chunk sizes, EOF position and deadline",
             encodes=["dns.query.receive_tcp", "dns.query._net_read"],
             bound="the first 4 recv calls deliver 1-3 octets or would-block (symbolic), later calls deliver all; EOF at any position of the stream; deadline expiring at wait 0..4",
             stubs=["E11"], outside="> 4 scripted events; TLS want-read / want-write"),
     Harness("H18b2", h18b2, h18b2_pre, lambda tier: [{"_timeout": 900, "_path_timeout": 120}], kind="universal over partial-send sizes",
             encodes=["dns.query.send_tcp", "dns.query._net_write"], bound="first 3 send calls accept a symbolic 0..47 octets (0 = would block)", stubs=["E11"], outside=""),
-    Harness("H18c", h18c, h18c_pre, lambda tier: [{"v6": v, "_timeout": 900, "_path_timeout": 120} for v in (False, True)], kind="universal over ports, finite over addresses",
+    Harness("H18c", h18c, h18c_pre, lambda tier: [{"v6": v, "di": di, "_timeout": 900, "_path_timeout": 120} for v in (False, True) for di in range(4) if v or di != 3], kind="universal over ports, finite over addresses",
             encodes=["dns.query._matches_destination", "dns.query._addresses_equal", "dns.inet.is_multicast"],
             bound="4 IPv4 / 4 IPv6 addresses (incl. two spellings of one address, an invalid spelling, a multicast group) as destination and source; ports symbolic 16 bit; IPv6 flow / scope 0..1",
-            stubs=[], outside="other addresses"),
+            stubs=["E2b"], outside="other addresses; the text of the UnexpectedSource message"),
 ]
